@@ -787,7 +787,7 @@ Definition with_var_handle (x : vid) (m : M unit) : M unit :=
 
 (* ------------------------------------------------------------ node creation (node.rs:1598-1653, scope.rs:73) *)
 Definition new_node (k : kind) (sc : scope) : node :=
-  Node k true None CPartialEq (-1) (-1) 0 [] sc [] [-1] (-1) (-1) (-1) false false [] true true.
+  Node k true None CPartialEq (-1) (-1) 0 [] sc [] [-1] (-1) (-1) (-1) false false [] true true [].
 
 Definition create_node (k : kind) : M nid :=
   s <- get ;;
